@@ -273,17 +273,24 @@ fn make_cell(family: &str, variant: u64, aux: u64) -> Cell {
         "idx" => {
             use zipora::containers::specialized::GoldHashIdx as I;
             let pool = |c: SecurePoolConfig| SecureMemoryPool::new(c).expect("pool");
-            let (name, m, cap): (&str, I<CKey, u64>, u64) = match variant {
-                0 => ("new", I::new(), 16),
-                1 => ("with_capacity1", I::with_capacity(1), 1),
-                2 => ("with_pool", I::with_pool(16, pool(SecurePoolConfig::small_secure())), 16),
-                3 => ("default_trait", I::default(), 16),
-                4 => ("with_capacity0", I::with_capacity(0), 0),
-                5 => ("with_capacity17", I::with_capacity(17), 17),
-                6 => ("with_capacity1000", I::with_capacity(1000), 1000),
-                _ => ("with_pool0_medium", I::with_pool(0, pool(SecurePoolConfig::medium_secure())), 0),
+            // every map comes with a twin on the same memory pool (see Idx): the same Arc for with_pool, the global pool otherwise
+            let (p2, p7) = (pool(SecurePoolConfig::small_secure()), pool(SecurePoolConfig::medium_secure()));
+            let mk = |twin: bool| -> (&'static str, I<CKey, u64>, u64) {
+                let _ = twin;
+                match variant {
+                    0 => ("new", I::new(), 16),
+                    1 => ("with_capacity1", I::with_capacity(1), 1),
+                    2 => ("with_pool", I::with_pool(16, p2.clone()), 16),
+                    3 => ("default_trait", I::default(), 16),
+                    4 => ("with_capacity0", I::with_capacity(0), 0),
+                    5 => ("with_capacity17", I::with_capacity(17), 17),
+                    6 => ("with_capacity1000", I::with_capacity(1000), 1000),
+                    _ => ("with_pool0_medium", I::with_pool(0, p7.clone()), 0),
+                }
             };
-            Cell { name: format!("GoldHashIdx/{}", name), status: "M+S", model: Some(ModelDesc::Idx { cap }), stub: false, map: Box::new(Idx::<CK>(m, aux)) }
+            let (name, m, cap) = mk(false);
+            let (_, twin, _) = mk(true);
+            Cell { name: format!("GoldHashIdx/{}", name), status: "M+S", model: Some(ModelDesc::Idx { cap }), stub: false, map: Box::new(Idx::<CK>(m, aux, Some(twin))) }
         }
         "small_u8" => Cell { name: "SmallMap<u8>/get_fast".into(), status: "S-only", model: None, stub: false, map: Box::new(SmU8(zipora::containers::specialized::SmallMap::new())) },
         "small" => {
@@ -402,7 +409,7 @@ fn history(cx: &mut Ctx, family: &str, variant: u64, aux: u64, ops: &[(u64, u64,
                 4 => m.contains(k).map(|got| { let want = shadow.contains_key(&k);
                     (format!("OBool {}", coq_bool(got)), if got != want { Some(format!("contains_key({}) = {}, a map says {}", k, got, want)) } else { None }) }),
                 5 => m.len().map(|got| { let want = shadow.len();
-                    (format!("OLen {}", got as u128), if got != want { Some(if got == usize::MAX { "is_empty() disagrees with len()".to_string() } else { format!("len() = {}, a map has {} live keys", got, want) }) } else { None }) }),
+                    (format!("OLen {}", got as u128), if got != want { Some(if got == usize::MAX { "is_empty() disagrees with len()".to_string() } else if got == usize::MAX - 1 { "len() of the twin map on the same pool differs".to_string() } else { format!("len() = {}, a map has {} live keys", got, want) }) } else { None }) }),
                 6 => m.iter().map(|mut got| {
                     got.sort();
                     let want: Vec<(u64, u64)> = shadow.iter().map(|(a, b)| (*a, *b)).collect();
@@ -777,9 +784,9 @@ pub fn run(args: &Args) {
         for (fam, variant, aux) in all_cells(args.seed + si) { described(&mut cx, fam, variant, aux, "tour", n, si); }
     }
     // (b) threshold sweeps: fills that end exactly at / one before / one after the internal switch points
-    //     (SmallMap 8; tables of 16/32/64 slots; load factors 0.7 / 0.75 of 16, 64, 97, 1024; 255/256; 1023..1025; 4095..4097)
-    let sweep_ns: &[u64] = if args.thorough { &[7, 8, 9, 11, 12, 13, 15, 16, 17, 31, 32, 33, 47, 48, 49, 63, 64, 65, 67, 68, 96, 97, 255, 256, 257, 716, 717, 768, 769, 1023, 1024, 1025, 4095, 4096, 4097] }
-                           else { &[8, 9, 12, 16, 17, 32, 33, 48, 64, 65, 256, 257, 717, 769, 1024, 1025, 4096, 4097] };
+    //     (SmallMap 8; tables of 16/32/64 slots; load factors 0.7 / 0.75 of 16, 64, 97, 1024, 1741; 255/256; 1023..1025; 4095..4097)
+    let sweep_ns: &[u64] = if args.thorough { &[7, 8, 9, 11, 12, 13, 15, 16, 17, 31, 32, 33, 47, 48, 49, 63, 64, 65, 67, 68, 96, 97, 255, 256, 257, 716, 717, 768, 769, 1023, 1024, 1025, 1218, 1219, 4095, 4096, 4097] }
+                           else { &[8, 9, 12, 16, 17, 32, 33, 48, 64, 65, 256, 257, 717, 769, 1024, 1025, 1218, 1219, 4096, 4097] };
     for (j, &n) in sweep_ns.iter().enumerate() {
         let seed = args.seed + j as u64;
         // forced collisions (4 hash values for all keys) make a fill quadratic: only for the small sweeps
@@ -788,7 +795,7 @@ pub fn run(args: &Args) {
             ("zip", 0, seed % 2), ("zip", 1, 0), ("zip", 9, 1), ("zip", 16, 0), ("zipcap", n, 0), ("zipcap", n + 1, 0), ("zipdef", j as u64 % 4, 0),
             // the capacities the library's own sizing helpers recommend for n elements
             ("zipcap", zipora::hash_map::optimal_bucket_count(n as usize) as u64, 0), ("zipcap", zipora::hash_map::golden_ratio_next_size(n as usize) as u64, 0),
-            ("gold", j as u64 % GOLD_VARIANTS, cm), ("gold", 1, 0), ("gold", 6, cm), ("gold", 15, 0),
+            ("gold", j as u64 % GOLD_VARIANTS, cm), ("gold", 1, 0), ("gold", 2, 0), ("gold", 6, cm), ("gold", 15, 0),
             ("idx", j as u64 % IDX_VARIANTS, cm), ("idx", 0, 0), ("small", 0, 0), ("small_t", j as u64 % TYPES, 0),
             ("easy", j as u64 % EASY_VARIANTS, cm), ("easy", 2, 0), ("easy", 6, 0), ("str", j as u64 % 3, 0),
             ("zip_t", j as u64 % TYPES, 0), ("gold_t", (j as u64 + 1) % TYPES, 0), ("idx_t", (j as u64 + 2) % TYPES, 0), ("easy_t", (j as u64 + 3) % TYPES, 0),
